@@ -12,6 +12,7 @@ I == INSTANCE Idents
 Why(e) ==
     IF ~I!RustIdent(e.rust_chars, e.rust) THEN "not a legal non-keyword Rust identifier"
     ELSE IF ~I!CaseRule(e.role, e.rust_chars) THEN "identifier does not follow the case rule of its role"
+    ELSE IF ~I!ExactCase(e.role, e.asn_chars, e.rust_chars) THEN "identifier is not the snake-case form of the ASN.1 name (a word boundary is lost or invented)"
     ELSE IF ~I!Recoverable(e.asn_chars, e.rust_chars) THEN "ASN.1 name is not recoverable from the identifier"
     ELSE "identifier differs from the ASN.1 name but the identifier annotation is missing or wrong"
 
